@@ -32,6 +32,11 @@ def expect_async(expecter, timeout=None):
     except asyncio.TimeoutError as e:
         transport.pause_reading()
         return expecter.timeout(e)
+    except asyncio.CancelledError:
+        # The caller gave up on this call: stop reading, so that what arrives
+        # later is left for the next call instead of being fed to this one.
+        transport.pause_reading()
+        raise
 
 
 @asyncio.coroutine
